@@ -108,12 +108,14 @@ structure HsPost (s s' : St) (ok : Bool) : Prop where
   frame : Frame s s'
   dz : s'.dz = false
   own : s'.stopped = s.stopped ∧ s'.born = s.born
+  fkeep : ¬ (s.F.app < s.gack) → s'.F = s.F
+  lkeep : s.F.app ≤ s.L.app → s'.L = s.L
 
 theorem handshake_spec (cfg : Cfg) (s : St) (f : Fault) (h : InvA s) :
     HsPost s (handshake cfg s f).1 (handshake cfg s f).2 := by
   have hfail : ∀ (st : Stream), HsPost s { s with chan := .failure, stream := st, dz := false } false :=
     fun st => ⟨invc_notready h (fun e => by cases e), by simp, by simp, by simp, by simp, Int.le_refl _, Or.inl rfl,
-      fun _ => rfl, id, Or.inl plain_rfl, rfl, ⟨rfl, rfl⟩⟩
+      fun _ => rfl, id, Or.inl plain_rfl, rfl, ⟨rfl, rfl⟩, fun _ => rfl, fun _ => rfl⟩
   have hgc := h.lint.gack_cons
   unfold handshake replicaAckIndex resetReplicaIndex followerReset
   dsimp only
@@ -126,7 +128,8 @@ theorem handshake_spec (cfg : Cfg) (s : St) (f : Fault) (h : InvA s) :
     rename_i heq
     have hc : s.cons = s.F.app := by omega
     refine ⟨invA_mk (invc_ready (st' := .none) (dz' := false) h hc) rfl rfl rfl rfl rfl rfl rfl rfl,
-      fun _ => ⟨rfl, rfl, hc, rfl⟩, ?_, by simp, by simp, Int.le_refl _, Or.inl rfl, fun _ => rfl, id, Or.inl plain_rfl, rfl, ⟨rfl, rfl⟩⟩
+      fun _ => ⟨rfl, rfl, hc, rfl⟩, ?_, by simp, by simp, Int.le_refl _, Or.inl rfl, fun _ => rfl, id, Or.inl plain_rfl, rfl, ⟨rfl, rfl⟩,
+      fun _ => rfl, fun _ => rfl⟩
     intro _
     dsimp only
     split <;> omega
@@ -138,7 +141,7 @@ theorem handshake_spec (cfg : Cfg) (s : St) (f : Fault) (h : InvA s) :
       rw [e]
       refine ⟨invA_mk (invc_follower_reset (st' := .none) (dz' := false) h) rfl rfl rfl rfl rfl rfl rfl rfl,
         fun _ => ⟨rfl, rfl, rfl, rfl⟩, ?_, by simp, by simp, Int.le_refl _, Or.inr rfl, fun x => absurd rfl x,
-        fun n => nlc_follower_reset n hgc, Or.inl plain_rfl, rfl, ⟨rfl, rfl⟩⟩
+        fun n => nlc_follower_reset n hgc, Or.inl plain_rfl, rfl, ⟨rfl, rfl⟩, fun x => absurd hlt x, fun _ => rfl⟩
       intro _
       dsimp only
       rw [if_pos hlt]
@@ -152,7 +155,8 @@ theorem handshake_spec (cfg : Cfg) (s : St) (f : Fault) (h : InvA s) :
         split at hah <;> simp at hah <;> omega
       refine ⟨invA_mk (invc_reset_append (st' := .none) (dz' := false) h (by omega)) rfl rfl rfl rfl rfl rfl rfl rfl,
         fun _ => ⟨rfl, rfl, rfl, rfl⟩, ?_, by simp, by simp, hg, Or.inl rfl, fun _ => rfl, ?_,
-        Or.inr ⟨⟨rfl, rfl, rfl, rfl, rfl, rfl, rfl, rfl, rfl⟩, hk, rfl, rfl, rfl, rfl⟩, rfl, ⟨rfl, rfl⟩⟩
+        Or.inr ⟨⟨rfl, rfl, rfl, rfl, rfl, rfl, rfl, rfl, rfl⟩, hk, rfl, rfl, rfl, rfl⟩, rfl, ⟨rfl, rfl⟩,
+        fun _ => rfl, fun x => by omega⟩
       · intro _
         dsimp only
         rw [if_neg hge]
@@ -164,7 +168,7 @@ theorem handshake_spec (cfg : Cfg) (s : St) (f : Fault) (h : InvA s) :
       simp only [hah', Bool.false_eq_true, if_false, ackGroup, e, Int.le_refl, and_true, hg, if_true]
       refine ⟨invA_mk (invc_rewind (st' := .none) (dz' := false) h hg hle) rfl rfl rfl rfl rfl rfl rfl rfl,
         fun _ => ⟨rfl, rfl, rfl, rfl⟩, ?_, by simp, by simp, hg, Or.inl rfl, fun _ => rfl,
-        fun n => nlc_rewind n h.fint.ack_app, Or.inl plain_rfl, rfl, ⟨rfl, rfl⟩⟩
+        fun n => nlc_rewind n h.fint.ack_app, Or.inl plain_rfl, rfl, ⟨rfl, rfl⟩, fun _ => rfl, fun _ => rfl⟩
       intro _
       dsimp only
       rw [if_neg hge]
@@ -215,8 +219,8 @@ structure SpPost (s s' : St) (o : Out) (f : Fault) : Prop where
   dz : s.dz = false → f ≠ .put → s'.dz = false
   own : s'.stopped = s.stopped ∧ s'.born = s.born
 
-theorem sendPhase_spec (s : St) (f : Fault) (h : InvA s) (hr : s.chan = .ready) (hst : s.stopped = false) :
-    SpPost s (sendPhase s f).1 (sendPhase s f).2 f := by
+theorem sendPhase_spec (cfg : Cfg) (s : St) (f : Fault) (h : InvA s) (hr : s.chan = .ready) (hst : s.stopped = false) :
+    SpPost s (sendPhase cfg s f).1 (sendPhase cfg s f).2 f := by
   have hl := h.lint
   have hag := h.ackg hst
   have hc1 : -1 ≤ s.cons := lint_cons_ge hl
@@ -247,9 +251,13 @@ theorem sendPhase_spec (s : St) (f : Fault) (h : InvA s) (hr : s.chan = .ready) 
           subst hp
           simp only [decide_true, if_true, reduceCtorEq, if_false]
           rw [if_neg (by omega : ¬ ((-1 : Int) = s.cons + 1))]
-          exact ⟨invA_mk (invc_consume_mismatch (ch' := s.chan) h hk hle) rfl rfl rfl rfl rfl rfl rfl rfl, rfl,
-            ⟨by simp, fun _ x => absurd rfl x⟩, by simp, by simp, Int.le_refl _, Int.le_refl _, rfl,
-            (fun i a b _ => by dsimp only at b; omega), fun n => nlc_consume n hle, plain_rfl, (fun _ x => absurd rfl x), ⟨rfl, rfl⟩⟩
+          split
+          · exact ⟨invA_mk (invc_consume_fail (st' := s.stream) (dz' := s.dz) h hk hle) rfl rfl rfl rfl rfl rfl rfl rfl, rfl,
+              ⟨by simp, fun _ x => absurd rfl x⟩, by simp, by simp, Int.le_refl _, Int.le_refl _, rfl,
+              (fun i a b _ => by dsimp only at b; omega), fun n => nlc_consume n hle, plain_rfl, (fun d _ => d), ⟨rfl, rfl⟩⟩
+          · exact ⟨invA_mk (invc_consume_mismatch (ch' := s.chan) h hk hle) rfl rfl rfl rfl rfl rfl rfl rfl, rfl,
+              ⟨by simp, fun _ x => absurd rfl x⟩, by simp, by simp, Int.le_refl _, Int.le_refl _, rfl,
+              (fun i a b _ => by dsimp only at b; omega), fun n => nlc_consume n hle, plain_rfl, (fun _ x => absurd rfl x), ⟨rfl, rfl⟩⟩
         · have e2 : decide (f = Fault.put) = false := by simpa using hp
           simp only [e2, Bool.false_eq_true, if_false]
           split
@@ -281,9 +289,13 @@ theorem sendPhase_spec (s : St) (f : Fault) (h : InvA s) (hr : s.chan = .ready) 
             by simp, by simp, by simp, Int.le_refl _, Int.le_refl _, rfl, (fun i a b _ => by dsimp only at b; omega),
             fun n => nlc_consume n hle, plain_rfl, (fun d _ => d), ⟨rfl, rfl⟩⟩
         · rw [if_neg (by omega : ¬ (s.F.app + 1 = s.cons + 1))]
-          exact ⟨invA_mk (invc_consume_mismatch (ch' := s.chan) h hk hle) rfl rfl rfl rfl rfl rfl rfl rfl, rfl,
-            ⟨by simp, fun d _ => (hd d).elim⟩, by simp, by simp, Int.le_refl _, Int.le_refl _, rfl,
-            (fun i a b _ => by dsimp only at b; omega), fun n => nlc_consume n hle, plain_rfl, (fun d _ => (hd d).elim), ⟨rfl, rfl⟩⟩
+          split
+          · exact ⟨invA_mk (invc_consume_fail (st' := s.stream) (dz' := s.dz) h hk hle) rfl rfl rfl rfl rfl rfl rfl rfl, rfl,
+              ⟨by simp, fun d _ => (hd d).elim⟩, by simp, by simp, Int.le_refl _, Int.le_refl _, rfl,
+              (fun i a b _ => by dsimp only at b; omega), fun n => nlc_consume n hle, plain_rfl, (fun d _ => d), ⟨rfl, rfl⟩⟩
+          · exact ⟨invA_mk (invc_consume_mismatch (ch' := s.chan) h hk hle) rfl rfl rfl rfl rfl rfl rfl rfl, rfl,
+              ⟨by simp, fun d _ => (hd d).elim⟩, by simp, by simp, Int.le_refl _, Int.le_refl _, rfl,
+              (fun i a b _ => by dsimp only at b; omega), fun n => nlc_consume n hle, plain_rfl, (fun d _ => (hd d).elim), ⟨rfl, rfl⟩⟩
   · dsimp only
     rw [if_pos (by decide)]
     exact ⟨h, rfl, by simp, by simp, by simp, Int.le_refl _, Int.le_refl _, rfl, (fun i a b _ => by dsimp only at b; omega), id, plain_rfl, (fun d _ => d), ⟨rfl, rfl⟩⟩
@@ -372,7 +384,7 @@ theorem replicaStep_spec (cfg : Cfg) (s : St) (f : Fault) (h : InvA s) (hst : s.
         exact hcov1
     · simp only [if_true]
       have hrd := hc.ok_ready rfl
-      have hsp := sendPhase_spec s2 f hc.inv hrd.1 (by rw [hc.own.1, hi.own.1]; exact hst)
+      have hsp := sendPhase_spec cfg s2 f hc.inv hrd.1 (by rw [hc.own.1, hi.own.1]; exact hst)
       have hdz2 : s.dz = false → s.chan = .ready → s2.dz = false := by
         intro d r
         rw [hc.same.2.2.2.2, hi.same_ready r]; exact d
@@ -385,7 +397,7 @@ theorem replicaStep_spec (cfg : Cfg) (s : St) (f : Fault) (h : InvA s) (hst : s.
         fun d p => hsp.dz (by rw [hc.same.2.2.2.2]; exact hi.dzkeep d) p,
         ⟨hsp.own.1.trans (hc.own.1.trans hi.own.1), hsp.own.2.trans (hc.own.2.trans hi.own.2)⟩⟩
       · intro hne
-        by_cases h23 : (sendPhase s2 f).1.gack = s2.gack
+        by_cases h23 : (sendPhase cfg s2 f).1.gack = s2.gack
         · have h1 : s1.gack ≠ s.gack := by rw [← hc.same.2.2.1, ← h23]; exact hne
           have := hi.ackok h1
           have hm := hsp.fmono
